@@ -11,5 +11,6 @@ CONSTANTS
   CfgSW = FALSE
   CfgNidl = FALSE
   CfgSO = FALSE
+  CfgRmErr = FALSE
 INVARIANTS InvC01
 CHECK_DEADLOCK FALSE
